@@ -191,6 +191,53 @@ pub fn small_const2<R: Rng>(rng: &mut R) -> Fq2 {
     }
 }
 
+/// Elements w of Fq2 for which the product w^2 * w drives the accumulator of the two-term sum of products above 2^256 + q (two
+/// subtractions of q needed) - found ahead of time by exact integer search (bin/vlib.py hiw_file, file named by SM9_VERIF_HIW).
+/// A Jacobian representative with z = 1/w makes normalisation compute exactly this product.  Empty when the file is absent.
+pub fn hi_w() -> &'static Vec<Fq2> {
+    static W: std::sync::OnceLock<Vec<Fq2>> = std::sync::OnceLock::new();
+    W.get_or_init(|| {
+        let mut found = Vec::new();
+        if let Ok(path) = std::env::var("SM9_VERIF_HIW") {
+            if let Ok(txt) = std::fs::read_to_string(path) {
+                if let Ok(v) = serde_json::from_str::<Value>(&txt) {
+                    for w in v["w"].as_array().cloned().unwrap_or_default() {
+                        if let Some(x) = Fq2::from_slice(&unb(&w)) {
+                            found.push(x);
+                        }
+                    }
+                }
+            }
+        }
+        found
+    })
+}
+
+/// the field element whose MONTGOMERY representation is the 256-bit integer m (big-endian)
+pub fn mont_val(m: &[u8; 32]) -> Fq {
+    let mut v = [0u8; 33];
+    v[0] = 1; // 2^256
+    Fq::from_slice(m).unwrap() * Fq::from_slice(&v).unwrap().inverse().unwrap()
+}
+/// differences that live in ONE 64-bit limb of the Montgomery representation: k * 2^(64 i), k in {1..8, 2^32, 2^63, 2^64 - 1}, and
+/// their negatives - two values differing by such a delta agree on every other limb (modulo the borrow of the negative ones)
+pub fn limb_deltas() -> Vec<Fq> {
+    let mut out = Vec::new();
+    for limb in 0..4usize {
+        for k in [1u64, 2, 3, 4, 5, 6, 7, 8, 1 << 32, 1 << 63, u64::MAX] {
+            let mut m = [0u8; 32];
+            m[(3 - limb) * 8..(4 - limb) * 8].copy_from_slice(&k.to_be_bytes());
+            let d = mont_val(&m);
+            out.push(d);
+            out.push(-d);
+        }
+    }
+    out
+}
+pub fn fq2_sixth_root(t: Fq2) -> Option<Fq2> {
+    fq2_cbrt(t.sqrt()?)
+}
+
 /// A Jacobian representative (X, Y, Z) of a point of E(Fq) built so that its NORMALISATION performs a chosen multiplication:
 /// to_affine computes X * zinv^2; with (a, b) a TLC-generated operand pair (quotient-pattern / V-boundary family) and b a square,
 /// zinv = sqrt(b), X = a, the affine x is a*b.  Returns None when b is not a square or a*b carries no point.
@@ -279,7 +326,16 @@ pub fn g2_rep<R: Rng>(rng: &mut R, p: G2, tag: &str) -> G2 {
         "S" => {
             // lambda: 2, -1, i, a purely imaginary element, a real element, a general element
             // (z shares a component with a special constant without being it: real part 1, imaginary part 1, real part 0 ...)
-            let sel = rng.gen_range(0..19);
+            let sel = rng.gen_range(0..20);
+            if sel == 19 && !hi_w().is_empty() {
+                // z = 1/w with w, w^2 in the top class of the sum-of-products accumulator
+                let ws = hi_w();
+                if let Some(l) = fq2_inv(ws[rng.gen_range(0..ws.len())]) {
+                    let mut p = p;
+                    p.normalize();
+                    return g2_scale(p, l);
+                }
+            }
             if sel >= 16 {
                 // z of prescribed NORM (the first quantity Fq2::inverse computes, handed to the Fq inversion): 1, -1, 4, 1/4, 2^-256 ...
                 let n = match rng.gen_range(0..5) {
